@@ -184,7 +184,8 @@ def exc_code(e):
     return [98]
 
 
-ORDERED_ONLY = {"popat", "insert", "setitem", "setslice", "delitem", "delslice", "setvalue"}
+ORDERED_ONLY = {"popat", "insert", "setitem", "setslice", "delitem", "delslice", "setvalue",
+                "xsetslice", "xdelslice", "append", "extend", "reverse", "iadd"}
 
 
 def apply_op(ctx, op):
@@ -253,6 +254,22 @@ def apply_op(ctx, op):
             del S[op[3]]
         elif name == "delslice":
             del S[op[3]:op[4]]
+        elif name == "xsetslice":      # oracle-only stream: extended slices and mixin methods
+            S[op[3]:op[4]:op[5]] = [ctx.pool[e] for e in op[6]]
+        elif name == "xdelslice":
+            del S[op[3]:op[4]:op[5]]
+        elif name == "append":
+            S.append(ctx.pool[op[3]])
+        elif name == "extend":
+            S.extend([ctx.pool[e] for e in op[3]])
+        elif name == "reverse":
+            S.reverse()
+        elif name == "iadd":
+            S += [ctx.pool[e] for e in op[3]]
+        elif name == "ior":
+            S |= {ctx.pool[e] for e in op[3]}
+        elif name == "isub":
+            S -= {ctx.pool[e] for e in op[3]}
         elif name == "setvalue":
             items = [ctx.pool[e] for e in op[3]]
             ns = ctx.owners[o]
@@ -366,13 +383,16 @@ def check_invariant(ctx):
                 if (x in S) != any(x is y for y in it):
                     bad.append(("member-iter", f"owner {o}: 'in' and iteration disagree on pool element {ctx.eid(x)}"))
             if isinstance(S, model.OrderedNamespaceSet):
-                for i, x in enumerate(it):
-                    if S[i] is not x or S[i - len(it)] is not x:
-                        bad.append(("index-iter", f"owner {o}: [{i}] is not the {i}-th iterated element"))
-                    if S.index(x) != i:
-                        bad.append(("index-iter", f"owner {o}: index() of the {i}-th element is {S.index(x)}"))
-                if list(S[:]) != it or list(reversed(S)) != it[::-1]:
-                    bad.append(("index-iter", f"owner {o}: slice/reversed view differs from iteration"))
+                try:
+                    for i, x in enumerate(it):
+                        if S[i] is not x or S[i - len(it)] is not x:
+                            bad.append(("index-iter", f"owner {o}: [{i}] is not the {i}-th iterated element"))
+                        if S.index(x) != i:
+                            bad.append(("index-iter", f"owner {o}: index() of the {i}-th element is {S.index(x)}"))
+                    if list(S[:]) != it or list(reversed(S)) != it[::-1]:
+                        bad.append(("index-iter", f"owner {o}: slice/reversed view differs from iteration"))
+                except (IndexError, ValueError, TypeError) as ex:
+                    bad.append(("index-iter", f"owner {o}: positional view raises {type(ex).__name__}"))
                 try:
                     S[len(it)]
                     bad.append(("index-iter", f"owner {o}: [len] does not raise"))
@@ -429,7 +449,7 @@ def snapshot(ctx):
 
 
 SINGLE = {"add", "remove", "discard", "pop", "popat", "insert", "setitem", "delitem", "rename",
-          "owneradd", "ownerremove"}
+          "owneradd", "ownerremove", "append"}
 
 
 def run_sdk(case, with_trace=True):
@@ -479,9 +499,10 @@ def gen_pool(rng, kind):
     return pool
 
 
-def gen_case(rng, kind, maxlen):
+def gen_case(rng, kind, maxlen, extra=False):
     """Generates the operations online against the SDK objects (so that indices make sense) and
-    returns the replayable case."""
+    returns the replayable case.  extra=True mixes in calls that the model does not cover
+    (extended slices, MutableSequence/MutableSet mixin methods): oracle-only stream."""
     attr, cs, nsets, ordered, hooks = KINDS[kind]
     pool = gen_pool(rng, kind)
     ctx = Ctx(kind, pool)
@@ -530,6 +551,35 @@ def gen_case(rng, kind, maxlen):
         a = rng.choice([None, 0, 1, 2, -1, -2, 4])
         b = rng.choice([None, 0, 1, 2, 3, -1, 6])
         x = rng.random()
+        if extra and rng.random() < 0.35:
+            st = rng.choice([2, -1, 3, -2, 1])
+            y = rng.random()
+            if not isord:
+                op = ("ior", o, j, some(rng.choice([1, 2, 3]))) if y < 0.5 else ("isub", o, j, some(rng.choice([1, 2, 3])))
+            elif y < 0.3:
+                if rng.random() < 0.6:
+                    a, b = None, None
+                dl = len(S[a:b:st])
+                free = [i for i, y_ in enumerate(ctx.pool) if y_.parent is None] or list(range(n))
+                k = max(0, rng.choice([dl - 1, dl - 1, dl, dl + 1]))
+                op = ("xsetslice", o, j, a, b, st, [rng.choice(free) if rng.random() < 0.8 else rng.randrange(n)
+                                                    for _ in range(k)])
+            elif y < 0.45:
+                op = ("xdelslice", o, j, a, b, st)
+            elif y < 0.6:
+                op = ("append", o, j, e)
+            elif y < 0.7:
+                op = ("extend", o, j, some(rng.choice([1, 2, 3])))
+            elif y < 0.78:
+                op = ("reverse", o, j)
+            elif y < 0.86:
+                op = ("iadd", o, j, some(rng.choice([1, 2])))
+            elif y < 0.93:
+                op = ("ior", o, j, some(rng.choice([1, 2, 3])))
+            else:
+                op = ("isub", o, j, some(rng.choice([1, 2, 3])))
+            do(op)
+            continue
         if x < 0.24:
             op = ("add", o, j, e)
         elif x < 0.31:
@@ -757,6 +807,22 @@ def run(chk):
         terms.append(coq_case(case, trace))
         if len(chk.samples) < 4 and len(case["ops"]) >= 6 and ci >= ncorpus:
             chk.samples.append({"case": case, "sdk_observation_after_last_call": trace[-1]})
+    # oracle-only stream: calls outside the model (extended slices, mixin methods)
+    nx = 600 if chk.tier == "quick" else 6000
+    for i in range(nx):
+        case = gen_case(rng, kinds[i % len(kinds)], maxlen, extra=True)
+        _, fails = run_sdk(case, with_trace=False)
+        chk.seen((case["kind"], case["pool"], case["ops"]), nontrivial=True)
+        chk.count("oracle_only_cases")
+        if fails:
+            k, cls, msg = fails[0]
+            sig = signature(case, cls)
+            if sig not in reported:
+                reported.add(sig)
+                small = shrink_ops(dict(case, ops=case["ops"][:k + 1]),
+                                   lambda c2: (first_fail(c2) or (0, None, None))[1] == cls)
+                ff = first_fail(small)
+                chk.fail(sig, ff[2] if ff else msg, {"case": small, "how": "tools/c01.py run_sdk(case): oracle only"})
     bad, errs = common.run_mismatch_shards("C01", PRELUDE, terms, "check_case", shard=200 if chk.tier == "quick" else 400)
     chk.traces = common.run_mismatch_shards.evaluated - len(bad)
     for e in errs:
